@@ -34,6 +34,10 @@ type Env struct {
 	Prop  string // property whose oracles are active in this run
 	Dir   string // per-run scratch directory (tmpfs), removed after the run
 	Start time.Time
+	// BatchSeed (VERIF_SEED) and RunIndex let a harness enumerate systematically across the
+	// runs of a batch (e.g. crash point k of workload w) instead of sampling.
+	BatchSeed uint64
+	RunIndex  uint64
 
 	mu      sync.Mutex
 	known   map[string]bool
